@@ -314,6 +314,16 @@ func mutants(n refcodec.Node) []struct {
 					t.Coords[ci][oi] = math.Nextafter(t.Coords[ci][oi], dir)
 					add(m, fmt.Sprintf("ordinate %v/%d/%d moved one ulp", p, ci, oi))
 				}
+				if sub.Coords[ci][oi] == 0 { // the other zero: −0 and +0 are the same value in every ordinate
+					m := cloneNode(n)
+					t := at(&m, p)
+					if math.Signbit(t.Coords[ci][oi]) {
+						t.Coords[ci][oi] = 0
+					} else {
+						t.Coords[ci][oi] = math.Copysign(0, -1)
+					}
+					add(m, fmt.Sprintf("ordinate %v/%d/%d: sign of zero flipped", p, ci, oi))
+				}
 			}
 		}
 		// LineString reversed / ring rotated
@@ -515,6 +525,9 @@ func c18Main(r *engine.Run) {
 	for _, ring := range [][][]float64{
 		{{0, 0}, {0, 0}, {1, 0}, {0, 1}, {0, 0}}, {{0, 0}, {1, 0}, {1, 0}, {0, 1}, {0, 0}}, {{0, 0}, {1, 0}, {0, 1}, {0, 1}, {0, 0}},
 		{{0, 0, 5}, {2, 0, 6}, {2, 0, 6}, {2, 2, 7}, {0, 2, 8}, {0, 0, 5}}, {{0, 0}, {2, 0}, {2, 1}, {2, 1}, {2, 2}, {2, 2}, {0, 2}, {0, 0}},
+		// consecutive vertices at one XY location with different Z: at the start, before the closing vertex, in the middle
+		{{0, 0, 5}, {0, 0, 6}, {1, 0, 7}, {0, 1, 8}, {0, 0, 5}}, {{0, 0, 5}, {1, 0, 6}, {0, 1, 7}, {0, 0, 9}, {0, 0, 5}}, {{0, 0, 5}, {1, 0, 6}, {1, 0, 9}, {0, 1, 7}, {0, 0, 5}},
+		{{0, 0, 5}, {1, 0, 6}, {0, 1, 7}, {0, 1, 9}, {0, 0, 5}},
 	} {
 		ct := geom.DimXY
 		if len(ring[0]) == 3 {
@@ -611,6 +624,94 @@ func c18Main(r *engine.Run) {
 		}
 	}
 	r.Bound(fmt.Sprintf("chains of 3..%d members spaced 0.4 apart: every permutation under IgnoreOrder + ToleranceXY(0.45 / 0.5 / 1), both argument orders", maxPerm))
+	// IgnoreOrder + ToleranceXY as a matching problem: A and B are multisets of k positions on a
+	// 0.5-spaced line; they are related iff some bijection pairs every member with one within e
+	// (brute force over all bijections). Every pair of multisets, both argument orders.
+	{
+		kmax := 3
+		if r.Thorough() {
+			kmax = 4
+		}
+		const e = 0.6
+		for k := 2; k <= kmax; k++ {
+			var sets [][]int
+			var gen func(start int, cur []int)
+			gen = func(start int, cur []int) {
+				if len(cur) == k {
+					sets = append(sets, append([]int(nil), cur...))
+					return
+				}
+				for v := start; v < 6; v++ {
+					gen(v, append(cur, v))
+				}
+			}
+			gen(0, nil)
+			mk := func(set []int, kind int) geom.Geometry {
+				var pts []geom.Point
+				var lns []geom.LineString
+				var gs []geom.Geometry
+				for _, v := range set {
+					x := 0.5 * float64(v)
+					pts = append(pts, geom.NewPointXY(x, 0))
+					lns = append(lns, geom.NewLineStringXY(x, 0, x, 1))
+					gs = append(gs, geom.NewPointXY(x, 0).AsGeometry())
+				}
+				switch kind {
+				case 0:
+					return geom.NewMultiPoint(pts).AsGeometry()
+				case 1:
+					return geom.NewMultiLineString(lns).AsGeometry()
+				}
+				return geom.NewGeometryCollection(gs).AsGeometry()
+			}
+			matchable := func(a, b []int) bool {
+				used := make([]bool, len(b))
+				var rec func(i int) bool
+				rec = func(i int) bool {
+					if i == len(a) {
+						return true
+					}
+					for j := range b {
+						if !used[j] && math.Abs(0.5*float64(a[i]-b[j])) <= e {
+							used[j] = true
+							if rec(i + 1) {
+								return true
+							}
+							used[j] = false
+						}
+					}
+					return false
+				}
+				return rec(0)
+			}
+			// B's members are listed in descending order so that greedy first choices are often dead ends
+			ns := len(sets)
+			r.Parallel(ns*ns, func(q int) {
+				a, b := sets[q/ns], sets[q%ns]
+				br := make([]int, len(b))
+				for i := range b {
+					br[i] = b[len(b)-1-i]
+				}
+				want := matchable(a, b)
+				for kind := 0; kind < 3; kind++ {
+					for _, bb := range [][]int{b, br} {
+						ga, gb := mk(a, kind), mk(bb, kind)
+						r.Evaluations.Add(1)
+						r.Transitions.Add(2)
+						ab := geom.ExactEquals(ga, gb, geom.IgnoreOrder, geom.ToleranceXY(e))
+						ba := geom.ExactEquals(gb, ga, geom.IgnoreOrder, geom.ToleranceXY(e))
+						if ab != want || ba != want {
+							r.Violation("C18/ignoreOrderWithTolerance.matching", "pair", eqCase{ga.AsText(), gb.AsText(), fmt.Sprintf("IgnoreOrder+ToleranceXY(%v): (a,b)=%v (b,a)=%v, a bijection within tolerance exists: %v", e, ab, ba, want)}, "")
+						}
+						if want {
+							r.Nontrivial(ga.AsText() + "~" + gb.AsText())
+						}
+					}
+				}
+			})
+		}
+		r.Bound(fmt.Sprintf("IgnoreOrder+ToleranceXY(0.6) as bipartite matching: all pairs of k-multisets (k=2..%d) of 6 positions spaced 0.5, as MultiPoint / MultiLineString / GeometryCollection, B in both member orders, both argument orders, against brute-force bijection search", kmax))
+	}
 	// equivalence laws on all triples of a 60-element family
 	fam := []geom.Geometry{}
 	for i := 0; i < len(bases) && len(fam) < 40; i += len(bases)/40 + 1 {
